@@ -53,6 +53,29 @@ func main() {
 		os.Exit(2)
 	}
 	results := rules.RunProp(c, pr)
+	var configs []interface{}
+	configs = append(configs, p.Units())
+	if *tier == "thorough" {
+		// the same rules under the other build configurations of the repository
+		// (build-tagged files: *_windows.go; 32-bit int)
+		for _, cf := range [][2]string{{"windows", "amd64"}, {"linux", "386"}} {
+			p2, err := core.Load(*repo, cf[0], cf[1])
+			if err != nil {
+				fail("load "+cf[0]+"/"+cf[1], err.Error())
+			}
+			c2 := rules.NewCtx(p2, *tier, *verif)
+			pr2 := rules.Props(c2)[*prop]
+			for _, rr := range rules.RunProp(c2, pr2) {
+				rr.ID = rr.ID
+				rr.Doc = "[" + cf[0] + "/" + cf[1] + "] " + rr.Doc
+				for _, o := range rr.Obs {
+					o.Key = o.Key + "@" + cf[0] + "/" + cf[1]
+				}
+				results = append(results, rr)
+			}
+			configs = append(configs, p2.Units())
+		}
+	}
 	known, err := core.LoadKnown(filepath.Join(*verif, "KNOWN_FINDINGS.txt"))
 	if err != nil {
 		fail("known-findings", err.Error())
@@ -82,7 +105,7 @@ func main() {
 	for _, o := range oc.Known {
 		fmt.Printf("KNOWN-FINDING: property=%s rule=%s site=%s at %s: %s\n", *prop, o.Rule, o.Key, o.Pos, o.Detail)
 	}
-	extra := map[string]interface{}{"tier_note": pr.TierNote(*tier)}
+	extra := map[string]interface{}{"tier_note": pr.TierNote(*tier), "configurations": configs}
 	cov := core.Summarise(p, results, oc, pr.Explanation, extra)
 	ev := &core.Evidence{PropertyID: *prop, Tier: *tier, Seed: seed, Level: "other", Coverage: cov,
 		Assumptions: pr.Assumptions, WallS: time.Since(start).Seconds(), Violations: len(oc.Violations) + len(oc.Undecided)}
